@@ -11,6 +11,7 @@ import SoyVerif.Ops.Check
 import SoyVerif.Ops.Writer
 import SoyVerif.Ops.Escape
 import SoyVerif.Ops.Value
+import SoyVerif.Ops.Msg
 
 open SoyVerif SoyVerif.Ops
 
@@ -21,7 +22,8 @@ def allOps : List Op :=
   Ops.Check.ops ++
   Ops.Writer.ops ++
   Ops.Escape.ops ++
-  Ops.Value.ops
+  Ops.Value.ops ++
+  Ops.Msg.ops
 
 def handle (op : String) (f : List String) : String :=
   match allOps.find? (·.1 == op) with
